@@ -51,6 +51,12 @@ def gen_desc(verif_seed: int, i: int, tier: str = "quick") -> dict:
         cfg["max_examples"] = rng.randint(3, 10)
         if rng.random() < 0.3:
             behaviour = gen.gen_behaviour(rng, udesc, kinds=["http500", "marker"], p_none=0.0, max_n=1)
+        r2 = random.Random(rs ^ 0x0EE1)
+        qs = [q["name"] for c in udesc["collections"] for q in c["query"]]
+        if qs and r2.random() < 0.4:
+            # a --set-query override of a declared parameter (the user's value replaces whatever was generated)
+            name = r2.choice(sorted(set(qs)))
+            cfg["override"] = {"query": {name: {"limit": "7", "sort": "asc", "q": "abc", "page": "3"}[name]}}
     elif focus == "rate":
         cfg["rate_limit"] = rng.choice(["2/s", "5/s", "10/s", "20/s", "30/m", "100/m"])
         cfg["max_examples"] = rng.randint(3, 8)
@@ -76,6 +82,8 @@ def gen_desc(verif_seed: int, i: int, tier: str = "quick") -> dict:
             cfg["argv"] += ["--rate-limit", cfg["rate_limit"]]
         for hk, hv in (cfg.get("headers") or {}).items():
             cfg["argv"] += ["-H", f"{hk}: {hv}"]
+        for qk, qv in ((cfg.get("override") or {}).get("query") or {}).items():
+            cfg["argv"] += ["--set-query", f"{qk}={qv}"]
         if cfg.get("step_count"):
             # no CLI flag for the step count in this version: drop it from the reference
             cfg["step_count"] = None
